@@ -316,6 +316,8 @@ type PosWriter struct {
 	// Transient: only call FailCall fails (nothing is taken); later calls succeed again.
 	Transient bool
 	Hit       bool
+	// Err is the error of the failing call (ErrInjected if nil)
+	Err error
 }
 
 func (w *PosWriter) Write(p []byte) (int, error) {
@@ -325,11 +327,15 @@ func (w *PosWriter) Write(p []byte) (int, error) {
 	}
 	if w.FailCall > 0 && w.Calls == w.FailCall {
 		w.Hit = true
+		e := w.Err
+		if e == nil {
+			e = ErrInjected
+		}
 		if w.Short && len(p) > 1 {
 			w.Buf = append(w.Buf, p[:len(p)/2]...)
-			return len(p) / 2, ErrInjected
+			return len(p) / 2, e
 		}
-		return 0, ErrInjected
+		return 0, e
 	}
 	w.Buf = append(w.Buf, p...)
 	return len(p), nil
